@@ -37,8 +37,48 @@ let run_d opn tmo flags lens sys wt =
     Printf.printf "ret=%s errno=%s el=%s log=%s data=%s wire=%s guard=1 iovkept=1\n"
       (zs ret) (if neg then zs k.k_errno else "0") (zs k.k_elapsed)
       (String.concat ";" (List.map show_event (List.rev k.k_log))) data w
+(* ---- part 2: engine scripts ---- *)
+let zi s = if s = "inf" then z_of_string "-1" else z_of_string s
+let parse_step tok =
+  let a = split_on ':' (tail tok) in
+  let g i = zi (List.nth a i) in
+  match tok.[0] with
+  | 'w' -> SWait (g 0, g 1, g 2, g 3)
+  | 'r' -> SReady (g 0, g 1)
+  | 'p' -> SPoll
+  | 'i' -> SIntr (g 0, g 1)
+  | 't' -> SSleep (g 0)
+  | 'k' -> SKick
+  | 'x' -> SClose (g 0)
+  | 'a' -> SAdd (g 0, g 1, g 2)
+  | 'd' -> SRm (g 0, g 1, g 2)
+  | 'c' -> SEvents (g 0, g 1)
+  | _ -> failwith "step"
+let show_ev = function
+  | LCtl (op, fd, evs, res) -> Some (Printf.sprintf "C%s,%s,%s=%s" (zs op) (zs fd) (zs evs) (zs res))
+  | LWait evs -> Some ("P[" ^ String.concat "," (List.map (fun (f, e) -> zs f ^ ":" ^ zs e) evs) ^ "]")
+  | LFire _ -> None
+  | LMark -> Some "|"
+  | LRes (t, r, e) -> Some (Printf.sprintf "T%s=%s/%s" (zs t) (zs r) (zs e))
+  | LCall (c, r, out) ->
+    (match int_of_z c with
+     | 1 -> Some ("A=" ^ zs r) | 2 -> Some ("D=" ^ zs r)
+     | _ -> Some ("V=" ^ zs r ^ "[" ^ String.concat "," (List.map zs out) ^ "]"))
+let run_e steps =
+  let s = run_engine (List.map parse_step (split_on ',' steps)) in
+  let log = List.filter_map show_ev (List.rev s.s_log) in
+  let tab = List.filter (fun (_, e) -> not (e.i_int = Z0 && e.i_rd = Z0 && e.i_wr = Z0 && e.i_er = Z0)) s.s_tab in
+  let tab = List.sort (fun (a, _) (b, _) -> compare (int_of_z a) (int_of_z b)) tab in
+  let tabs = List.map (fun (fd, e) -> Printf.sprintf "%s:%s:%s:%s:%s" (zs fd) (zs e.i_int) (zs e.i_rd) (zs e.i_wr) (zs e.i_er)) tab in
+  let kern = List.map (fun e -> Printf.sprintf "%s:%s:%d" (zs e.ke_fd) (zs e.ke_events) (if e.ke_armed then 1 else 0)) s.s_k.kn_list in
+  let batch = List.map (fun (f, e) -> zs f ^ ":" ^ zs e) s.s_batch in
+  let blocked = List.filter_map (fun (t, w) -> match w with Waiting _ -> Some (zs t) | Finished -> None) s.s_thr in
+  Printf.printf "log=%s tab=%s size=%s kern=%s batch=%s blocked=%s now=%s\n"
+    (String.concat ";" log) (String.concat "," tabs) (zs s.s_size) (String.concat "," kern)
+    (String.concat "," batch) (String.concat "," blocked) (zs s.s_now)
 let () =
   iter_lines Sys.argv.(1) (fun l ->
     match split_on ' ' l with
     | ["D"; opn; tmo; flags; lens; sys; wt] -> run_d opn tmo flags lens sys wt
+    | ["E"; steps] -> run_e steps
     | _ -> print_endline "BADCASE")
